@@ -167,6 +167,13 @@ func init() {
 	c6api.QuickWall, c6api.ThoroughWall = 45*time.Second, 6*time.Minute
 	c6api.Rule = "second stage of C06 (API request handlers): the C12 request histories with every handler panicking, before or after it has started its response; oracle: the server survives, a handler that had not started its response is answered with 500, and exactly one panic error with the value and a stack trace arrives on the module error channel per panicking handler"
 	props["C06"].Also = &c6api
+	// C01 has a second stage on the same harness: modules with managed work (the stage is told apart by VERIF_STAGE,
+	// which the sub-process and its workers inherit, and by the shape of the plan in replay files)
+	c1work := *props["C05"]
+	c1work.QuickRuns, c1work.ThoroughRuns = 5000, 150000
+	c1work.QuickWall, c1work.ThoroughWall = 40*time.Second, 8*time.Minute
+	c1work.Rule = "second stage of C01: the C05 workloads (modules with workers, service workers, tasks, microtasks, event hooks; stop by Shutdown or management pass); oracle: when a module's stop routine begins, every started module that depends on it has completely stopped, i.e. its stop routine and its managed work have returned (as long as they return within the stop timeout); distinct = distinct hash of the lifecycle + work-item history"
+	props["C01"].Also = &c1work
 	// C12: "never crash or hang the server" includes the runtime's abort on overlapping map accesses (sessions, keys)
 	props["C12"].MapPkgs = "api,config"
 }
